@@ -19,7 +19,7 @@ pub struct Case {
 
 pub fn case_cfg(c: &Case) -> Cfg {
     let (dec, thou) = READ_SEPS[c.seps % 4];
-    Cfg { dec: Some(dec.into()), thou: Some(thou.into()), tz: c.g.tz.clone(), num: Some(c.num), pct: Some(c.pct), money: Some(c.money) }
+    Cfg { dec: Some(dec.into()), thou: Some(thou.into()), tz: c.g.tz.clone(), num: Some(c.num), pct: Some(c.pct), money: Some(c.money), order: (c.num.0 % 2) }
 }
 
 pub struct RoundTrip;
